@@ -33,6 +33,14 @@ def regen_all(force=False):
         regen_alloc()
     except Exception as e:
         core.log("Gen_Alloc.v not regenerated: %r" % (e,))
+    try:   # C03 (constants private to zstd_decompress.c: DDict hash set, no-forward-progress limit)
+        regen_c03()
+    except Exception as e:
+        core.log("Gen_C03.v not regenerated: %r" % (e,))
+    try:   # C02/C10 (streaming state machines: constants and enum encodings)
+        regen_stream()
+    except Exception as e:
+        core.log("Gen_Stream.v not regenerated: %r" % (e,))
     _done = True
 
 
@@ -73,3 +81,21 @@ def regen_alloc():
     if rc != 0:
         raise RuntimeError("dumper failed: %s rc=%d %s" % (t, rc, err[-500:]))
     core.write_if_changed(os.path.join(core.COQ, "Gen", "Gen_Alloc.v"), out)
+
+
+def regen_c03():
+    """C03: statics of lib/decompress/zstd_decompress.c -> coq/Gen/Gen_C03.v (raises when the dumper does not build/run)."""
+    t = core.build_harness("c03_dump", ["c03_dump.c"], variant="o1", extra_flags=["-w"])
+    rc, out, err = core.sh([t], timeout=60)
+    if rc != 0:
+        raise RuntimeError("dumper failed: %s rc=%d %s" % (t, rc, err[-500:]))
+    core.write_if_changed(os.path.join(core.COQ, "Gen", "Gen_C03.v"), out)
+
+
+def regen_stream():
+    """C02/C10: constants / enum encodings of the streaming state machines -> coq/Gen/Gen_Stream.v."""
+    t = core.build_harness("c02_dump", ["c02_dump.c"], variant="o1", extra_flags=["-w"])
+    rc, out, err = core.sh([t], timeout=60)
+    if rc != 0:
+        raise RuntimeError("dumper failed: %s rc=%d %s" % (t, rc, err[-500:]))
+    core.write_if_changed(os.path.join(core.COQ, "Gen", "Gen_Stream.v"), out)
